@@ -127,74 +127,75 @@ func (m *Model) ruleHLC(r *Results) {
 	} else {
 		r.undecided(rule, "GLOBAL", "-", "the clock is not loaded from a package-level variable")
 	}
-	// STAMP+MARK: in the allocator closure, the CAS given to the callback is the CAS given to the mark helper,
-	// every success return is preceded by the mark call and returns its error.
+	// STAMP+MARK: after the write callback, every path of the allocator closure that does not return the
+	// callback's error passes the statements that persist the high-water marks (in the closure or a helper)
 	clos := a.AllocClos
-	var cbCall, markCall ssa.CallInstruction
+	var cbCall ssa.CallInstruction
 	m.eachCall(clos, func(c ssa.CallInstruction) {
-		if c.Common().StaticCallee() == a.MarkHelper {
-			markCall = c
-		}
 		if c.Common().StaticCallee() == nil && !c.Common().IsInvoke() {
-			cbCall = c
+			if _, isB := c.Common().Value.(*ssa.Builtin); !isB {
+				cbCall = c
+			}
 		}
 	})
-	if cbCall == nil || markCall == nil {
-		r.bad(rule, "MARK / "+m.declName(clos), m.pos(clos.Pos()), "allocator closure does not call both the write callback and the high-water-mark helper")
+	marks := m.markInstrs(clos)
+	if cbCall == nil || len(marks) == 0 {
+		r.bad(rule, "MARK / "+m.declName(clos), m.pos(clos.Pos()), "allocator closure does not both call the write callback and persist the high-water mark (no UPDATE .. SET lastCas in its extent)")
 	} else {
-		casOf := func(c ssa.CallInstruction) ssa.Value {
-			for _, arg := range c.Common().Args {
-				if b, ok := arg.Type().Underlying().(*types.Basic); ok && b.Kind() == types.Uint64 {
-					return arg
+		c := newCut()
+		for _, mi := range marks {
+			c.cutBlock(mi.Block())
+		}
+		// the callback-error edge
+		cbErr := ssa.Value(nil)
+		if v := cbCall.Value(); v != nil && v.Referrers() != nil {
+			for _, ref := range *v.Referrers() {
+				if ex, ok := ref.(*ssa.Extract); ok && types.Identical(ex.Type(), types.Universe.Lookup("error").Type()) {
+					cbErr = ex
 				}
 			}
-			return nil
 		}
-		sameCas := false
-		if x, y := casOf(cbCall), casOf(markCall); x != nil && y != nil {
-			rx, _ := m.resolve(x, topFrame(clos))
-			ry, _ := m.resolve(y, topFrame(clos))
-			sameCas = stripConv(rx) == stripConv(ry)
-		}
-		r.check(sameCas, rule, "MARK / same CAS", m.instrPos(markCall), "the persisted high-water mark is the CAS handed to the write callback", "the high-water mark is advanced to a different value than the CAS handed to the write")
-		// every return that returns nil error constant must not exist besides via mark: each Return's result is either the callback's error (non-nil path) or the mark call's result
-		okAll := true
-		var badRet ssa.Instruction
-		for _, ret := range returnsOf(clos) {
-			if len(ret.Results) != 1 {
+		for _, iff := range allIfs(clos) {
+			cd := condOf(iff)
+			eq, ok := cd.equalEdge()
+			if !ok || !(isNilConst(cd.X) || isNilConst(cd.Y)) {
 				continue
 			}
-			res := ret.Results[0]
-			fromMark := res == ssa.Value(markCall.Value())
-			if fromMark {
-				continue
+			other := cd.X
+			if isNilConst(cd.X) {
+				other = cd.Y
 			}
-			// allowed: returning the callback's error on the branch where it is non-nil
-			if instrReachable(markCall, ret, nil) {
-				okAll, badRet = false, ret
-				continue
-			}
-			// a return that bypasses the mark must be on the err != nil edge of the callback's error
-			c := newCut()
-			for _, iff := range allIfs(clos) {
-				cd := condOf(iff)
-				if eq, ok := cd.equalEdge(); ok && (isNilConst(cd.Y) || isNilConst(cd.X)) {
-					// cut the err == nil edge: the bypassing return must then still be reachable only via err != nil
-					_ = eq
+			if cbErr != nil && flowsThroughPhi(cbErr, other) {
+				for _, sx := range iff.Block().Succs {
+					if sx != eq {
+						c.cutEdge(iff.Block(), sx)
+					}
 				}
 			}
-			_ = c
-			if cst, ok := res.(*ssa.Const); ok && cst.Value == nil {
-				okAll, badRet = false, ret
+		}
+		leak := false
+		var where ssa.Instruction
+		reach := reachableFromSuccs(cbCall.Block(), c)
+		if !c.blocks[cbCall.Block().Index] {
+			// marks in the same block as the callback are after it by the order check below
+			for _, ret := range returnsOf(clos) {
+				if reach[ret.Block().Index] || ret.Block() == cbCall.Block() {
+					leak, where = true, ret
+				}
 			}
 		}
-		if okAll {
-			r.ok(rule, "MARK / every success path", m.instrPos(markCall), "every path that returns success returns the mark helper's result")
+		if leak {
+			r.bad(rule, "MARK / every success path", m.instrPos(where), "the allocator closure can report success without having advanced the high-water mark in the same transaction")
 		} else {
-			r.bad(rule, "MARK / every success path", m.instrPos(badRet), "the allocator closure can report success without having advanced the high-water mark in the same transaction")
+			r.ok(rule, "MARK / every success path", m.instrPos(marks[0]), "every path after a successful write callback persists the high-water mark before returning")
 		}
-		// the mark call must come after the callback (same transaction, after the write)
-		r.check(instrReachable(cbCall, markCall, nil) && !instrReachable(markCall, cbCall, nil), rule, "MARK / order", m.instrPos(markCall), "mark is written after the document, in the same closure", "mark helper is not called after the write callback")
+		after := true
+		for _, mi := range marks {
+			if !instrReachable(cbCall, mi, nil) || instrReachable(mi, cbCall, nil) {
+				after = false
+			}
+		}
+		r.check(after, rule, "MARK / order", m.instrPos(marks[0]), "the mark is written after the document, in the same closure", "the high-water mark is not written after the write callback")
 	}
 	// SEED: open function seeds the clock from the persisted bucket mark before registration
 	m.ruleHLCSeed(r, rule)
@@ -1140,4 +1141,48 @@ func (m *Model) ruleROWBUF(r *Results) {
 	if n == 0 {
 		r.undecided(rule, "row iterator", "-", "no row-producing iterator method found")
 	}
+}
+
+// markSites: statements that persist a high-water mark (UPDATE bucket|collections SET lastCas = ...).
+func (m *Model) markSites() []*SQLSite {
+	var out []*SQLSite
+	for _, s := range m.Sites {
+		for _, v := range s.Variants {
+			st := v.Stmt()
+			if st == nil || st.Kind != sqlp.SUpdate {
+				continue
+			}
+			w := writeInfo(st)
+			if _, ok := w.Update["lastcas"]; ok && (w.Table == "bucket" || w.Table == "collections") {
+				out = append(out, s)
+				break
+			}
+		}
+	}
+	return out
+}
+
+// markInstrs: the instructions of fn that execute a mark statement, directly or through a helper.
+func (m *Model) markInstrs(fn *ssa.Function) []ssa.Instruction {
+	var out []ssa.Instruction
+	sites := m.markSites()
+	for _, s := range sites {
+		if s.Fn == fn {
+			out = append(out, s.Call)
+		}
+	}
+	m.eachCall(fn, func(c ssa.CallInstruction) {
+		callee := c.Common().StaticCallee()
+		if callee == nil || !m.inPkg(callee) {
+			return
+		}
+		reach := m.reachableLocal(callee)
+		for _, s := range sites {
+			if reach[s.Fn] {
+				out = append(out, c)
+				return
+			}
+		}
+	})
+	return out
 }
